@@ -1,7 +1,7 @@
 """C05 - translate_rotate is the exact rigid motion on every object (spec: Transform.tla).
 
 gamma  builds the reference world of spec/Transform.tla!World (integer coordinates, orientations atan2(s, c) of tokens)
-       through public constructors: three lanelets (one with a stop line; lanelets 1 and 3 are neighbours and, in the
+       through public constructors: three lanelets (one with a stop line, one with a point-less stop line; lanelets 1 and 3 are neighbours and, in the
        "shared-arrays" variant, hold ONE ndarray object as common boundary), a sign, a light, an area with two borders and one without, a static obstacle, dynamic
        obstacles with a KS trajectory (incl. an uncertain state), a point-mass trajectory (PMState: position + derived
        heading), an orientation-free CustomState trajectory, a set-based prediction (rect / circle / polygon / shape-group
@@ -237,7 +237,8 @@ def build(mix, alias="none"):
     common = arr([(0, 2), (4, 2), (8, 3)])                 # left boundary of lanelet 1 = right boundary of lanelet 3
     l1 = g.lanelet_from_arrays(1, common, arr([(0, 1), (4, 1), (8, 2)]), arr([(0, 0), (4, 0), (8, 1)]), successor=[2],
                                stop_line=g.stop_line((8, 1), (8, 3)), adjacent_left=3, adjacent_left_same_direction=True)
-    l2 = g.lanelet_from_polylines(2, [(8, 3), (12, 5)], [(8, 1), (12, 3)], predecessor=[1])
+    l2 = g.lanelet_from_polylines(2, [(8, 3), (12, 5)], [(8, 1), (12, 3)], predecessor=[1],
+                                  stop_line=g.stop_line_without_points())
     l3 = g.lanelet_from_arrays(3, arr([(0, 4), (4, 4), (8, 5)]), arr([(0, 3), (4, 3), (8, 4)]),
                                common if alias == "shared-arrays" else common.copy(),
                                adjacent_right=1, adjacent_right_same_direction=True)
@@ -420,7 +421,9 @@ def walk(world, ov=None, mode="full"):
             der.setdefault("lanelet_length", []).append((_pname(p), la.distance[-1]))
             der.setdefault("lanelet_area", []).append((_pname(p), la.polygon.shapely_object.area))
         if la.stop_line is not None:
-            comps.append(["stop_line", p + (("stop_line", "-"),), [tuple(la.stop_line.start), tuple(la.stop_line.end)], []])
+            sl = la.stop_line                  # a stop line may have no points (it then lies at the end of the lanelet)
+            comps.append(["stop_line", p + (("stop_line", "-"),),
+                          [] if sl.start is None or sl.end is None else [tuple(sl.start), tuple(sl.end)], []])
     for ar in sorted(net.areas, key=lambda x: x.area_id):
         for b in ar.border or []:
             comps.append(["area_border", (SC, NET, ("area_border", str(b.area_border_id))),
